@@ -122,6 +122,34 @@ let rec cty_of = function
 let run (prop : string) (input : S.t) (observed : S.t) : S.t * string =
   Hashtbl.reset flts; Hashtbl.reset strs;
   match input with
+  | S.L [S.A "coerce"; S.A "outx"; t; S.L (S.A "vals" :: vs)] ->
+    (* a list field answered with a slice: every element is coerced like a leaf *)
+    let ty = cty_of t in
+    let one v =
+      let value = cv_of v in
+      let (w, bad) = Model.leaf_out ty value in
+      ((if bad then S.L [S.A "err"] else S.L [S.A "ok"; sexp_of_cv w]), value) in
+    let exps = List.map one vs in
+    let expected = S.L (S.A "okx" :: List.map fst exps) in
+    let verdict =
+      (try
+         match observed with
+         | S.L (S.A "okx" :: os) when List.length os = List.length exps ->
+           let rec go os exps = match os, exps with
+             | S.L [S.A "err"] :: os', _ :: exps' -> go os' exps'
+             | S.L [S.A "err-with-value"; _] :: _, _ -> "fails:unconverted-value-returned-with-the-error"
+             | S.L [S.A "ok"; w] :: os', (_, value) :: exps' ->
+               let w = cv_of w in
+               if not (Model.has_shape ty w) then "fails:list-element-does-not-have-the-shape-of-its-declared-type"
+               else if not (Model.out_faithful value w) then "fails:list-element-is-not-the-value-the-resolver-returned"
+               else go os' exps'
+             | [], [] -> "holds"
+             | _ -> "fails:malformed-observation" in
+           go os exps
+         | S.L (S.A "panic" :: _) -> "fails:panic"
+         | _ -> "fails:list-not-answered-element-by-element"
+       with Failure _ | Not_found -> "fails:value-outside-the-representable-forms") in
+    (expected, verdict)
   | S.L [S.A "coerce"; S.A dir; t; v] ->
     let ty = cty_of t in
     let value = cv_of v in
